@@ -637,6 +637,54 @@ theorem validate_mapG (g : Stype → List String → Feat F) (names : List (Styp
     | none => rfl
     | some yy => simp [hy yy rfl]
 
+/-! ### `_merge_feat` -/
+
+theorem specG_embedding_kind (cv : Conv F) (df : DF L F) (n : Nat) (c : Stype)
+    (hc : c.useNested = false ∧ c.useEmbedding = true) (cols : List String) :
+    specG cv df n c cols = specG cv df n .embedding cols := by
+  have he : Stype.embedding.useNested = false ∧ Stype.embedding.useEmbedding = true := ⟨rfl, rfl⟩
+  simp only [specG, specFeat, hc.1, hc.2, he.1, he.2]
+
+theorem mergeStep_spec (cv : Conv F) (df : DF L F) (n : Nat) (names : List (Stype × List String)) (s : Stype) :
+    Conv.mergeStep (some (mapG (specG cv df n) names, names)) s =
+      some (mapG (specG cv df n) (mergeNamesStep names s), mergeNamesStep names s) := by
+  by_cases hs : s.parent = s
+  · simp [Conv.mergeStep, mergeNamesStep, hs]
+  · have hpar : s.parent = .embedding ∧ s.useNested = false ∧ s.useEmbedding = true := by
+      cases s <;> simp [Stype.parent, Stype.useNested, Stype.useEmbedding] at hs ⊢
+    obtain ⟨hp, hf1, hf2⟩ := hpar
+    simp only [Conv.mergeStep, mergeNamesStep, hs, if_false, Option.bind_eq_bind, Option.bind_some,
+      dictGet_mapG]
+    cases hcs : dictGet names s with
+    | none => simp
+    | some cs =>
+      simp only [Option.map_some, hp, Option.getD_some]
+      cases hps : dictGet names Stype.embedding with
+      | none =>
+        simp only [Option.map_none, Option.getD_none, List.nil_append, Option.bind_some, Option.pure_def]
+        rw [specG_embedding_kind cv df n s ⟨hf1, hf2⟩, dictSet_mapG, dictErase_mapG]
+      | some ps =>
+        have hcat : (specG cv df n .embedding ps).catCols2 (specG cv df n s cs) =
+            some (specG cv df n .embedding (ps ++ cs)) := by
+          simp only [specG, List.map_append]
+          exact catCols2_spec _ _ n _ _ ⟨rfl, rfl⟩ ⟨hf1, hf2⟩
+        simp only [Option.map_some, Option.getD_some, hcat, Option.bind_some, Option.pure_def]
+        rw [dictSet_mapG, dictErase_mapG]
+
+theorem foldl_mergeStep (cv : Conv F) (df : DF L F) (n : Nat) (l : List Stype) (names : List (Stype × List String)) :
+    l.foldl Conv.mergeStep (some (mapG (specG cv df n) names, names)) =
+      some (mapG (specG cv df n) (l.foldl mergeNamesStep names), l.foldl mergeNamesStep names) := by
+  induction l generalizing names with
+  | nil => rfl
+  | cons s rest ih =>
+    simp only [List.foldl_cons]
+    rw [mergeStep_spec, ih]
+
+theorem mergeFeat_spec (cv : Conv F) (df : DF L F) (n : Nat) (names : List (Stype × List String)) :
+    Conv.mergeFeat (mapG (specG cv df n) names) names =
+      some (mapG (specG cv df n) (mergeNames names), mergeNames names) :=
+  foldl_mergeStep cv df n childOrder names
+
 end Mat
 
 end TFVerif
